@@ -20,6 +20,8 @@ import (
 	"context"
 	"encoding/json"
 	"fmt"
+	"io"
+	"net/http/httptest"
 	"math/rand"
 	"path/filepath"
 	"sort"
@@ -754,6 +756,98 @@ func describeKey(k string) string {
 	return "manifest " + vh.Short(p[1])
 }
 
+// expiryHolderTrial: the directory store keeps one object per open repository in a cache and drops it when it has not
+// been asked for during a grace period.  A request that has been using the repository for longer than that (a manifest
+// PUT whose body is still coming) must not lose its object to the expiry: a second request would open a second object
+// for the same directory, each with an index of its own, and whichever saves last wipes the other's acknowledged
+// update.  Sequential reads at the end decide: both tags pushed with 201 resolve.
+type slowBody struct {
+	r       *io.PipeReader
+	started chan struct{}
+	once    sync.Once
+}
+
+func (p *slowBody) Read(b []byte) (int, error) {
+	p.once.Do(func() { close(p.started) })
+	return p.r.Read(b)
+}
+func (p *slowBody) Close() error { return p.r.Close() }
+
+func expiryHolderTrial(r *vh.Run, i int) {
+	root := r.TempDir("c11x")
+	defer vh.RemoveAll(root)
+	grace := []time.Duration{60 * time.Millisecond, 150 * time.Millisecond}[i%2]
+	c := vh.Conf(vh.Dir, root, vh.Policy{Grace: grace})
+	variant := []string{"collection-disabled", "collection-on-release"}[(i/2)%2]
+	if variant == "collection-disabled" {
+		c.Storage.GC.Frequency = -1
+	}
+	srv := vh.New(c)
+	defer srv.Close()
+	wit := map[string]any{"trial": i, "grace": grace.String(), "variant": variant}
+	cfg := []byte(fmt.Sprintf(`{"x":%d}`, i))
+	cd := vh.DigestOf("sha256", cfg)
+	vh.Do(srv, vh.Req{Method: "POST", URL: "/v2/x/blobs/uploads/?digest=" + cd, Body: cfg})
+	cb := &vh.Blob{Name: "cfg", B: cfg, D: cd}
+	slow := vh.MkImage("slow", "sha256", vh.MTImage, cb, vh.MTConfig, nil, "", "", map[string]string{"n": "slow", "i": fmt.Sprint(i)})
+	fast := vh.MkImage("fast", "sha256", vh.MTImage, cb, vh.MTConfig, nil, "", "", map[string]string{"n": "fast", "i": fmt.Sprint(i)})
+	pr, pw := io.Pipe()
+	body := &slowBody{r: pr, started: make(chan struct{})}
+	req := httptest.NewRequest("PUT", "/v2/x/manifests/slow", body)
+	req.Header.Set("Content-Type", slow.MT)
+	req.ContentLength = -1
+	slowDone := make(chan int, 1)
+	go func() {
+		w := httptest.NewRecorder()
+		srv.ServeHTTP(w, req)
+		slowDone <- w.Code
+	}()
+	select {
+	case <-body.started:
+	case <-time.After(10 * time.Second):
+		r.Inconclusive("expiryHolderTrial: the slow request never started reading its body")
+		_ = pw.Close()
+		return
+	}
+	time.Sleep(3*grace + 40*time.Millisecond) // longer than the expiry needs; the slow request is still there
+	fastDone := make(chan int, 1)
+	go func() {
+		rs := vh.Do(srv, vh.Req{Method: "PUT", URL: "/v2/x/manifests/fast", H: map[string]string{"Content-Type": fast.MT}, Body: fast.Raw})
+		fastDone <- rs.Status
+	}()
+	// the second push is given a moment of its own (it may have to wait for the first: that is C12's subject, not this one's)
+	var fs int
+	select {
+	case fs = <-fastDone:
+	case <-time.After(300 * time.Millisecond):
+	}
+	_, _ = pw.Write(slow.Raw)
+	_ = pw.Close()
+	ss := <-slowDone
+	if fs == 0 {
+		fs = <-fastDone
+	}
+	r.Count("expiry_holder_trials", 1)
+	wit["slow_status"], wit["fast_status"] = ss, fs
+	for _, tc := range []struct {
+		tag    string
+		status int
+		d      string
+	}{{"slow", ss, slow.D}, {"fast", fs, fast.D}} {
+		if tc.status != 201 {
+			continue
+		}
+		rs := vh.Do(srv, vh.Req{Method: "HEAD", URL: "/v2/x/manifests/" + tc.tag, H: map[string]string{"Accept": vh.AcceptAll}})
+		if rs.Status != 200 || rs.H.Get("Docker-Content-Digest") != tc.d {
+			r.Violation("lost-update:repository-object-expired-in-use", fmt.Sprintf("directory store, grace period %s, %s: tag %s was pushed with 201 while another request had been using the repository for longer than the grace period; at quiescence it answers %d - the repository was opened a second time next to the object still in use, and one index was saved over the other", grace, variant, tc.tag, rs.Status), wit)
+			return
+		}
+	}
+	if p := vh.ValidateLayout(filepath.Join(root, "x")); len(p) > 0 {
+		r.Violation("quiescent:layout", "after the slow and the fast push the directory is not a valid layout: "+strings.Join(p, "; "), wit)
+	}
+}
+
 func main() {
 	r := vh.Start()
 	if strings.HasPrefix(r.Variant(), "vsync") {
@@ -761,6 +855,11 @@ func main() {
 	}
 	n := r.N(400, 20000)
 	vh.Parallel(n, 6, func(i int) { history(r, i) })
+	if r.Variant() == "vsync" {
+		nx := r.N(8, 80)
+		vh.Parallel(nx, 4, func(i int) { expiryHolderTrial(r, i) })
+		r.Require("expiry_holder_trials", int64(nx/2))
+	}
 	r.Require("histories", int64(n))
 	r.Require("operations", int64(n*40))
 	r.RequireDistinct("overlap_shapes", n/2)
